@@ -413,6 +413,47 @@ fn main_check(ctx: &Ctx) -> Outcome {
     out.add_bfs(&rep);
     out.findings.extend(bfs_findings(&rep, clause_of));
 
+    // value sweeps: every 256-colour index (the cap to the 16 palette has its boundary at 15/16),
+    // every RGB component value, every plain code, through write_all on a fresh stream
+    {
+        let sweep = vchecks::wincon_sys::value_sweep_groups();
+        let bad = std::sync::Mutex::new(Vec::<Finding>::new());
+        sweep.par_iter().for_each(|g| {
+            let mut chunk = b"x\x1b[".to_vec();
+            chunk.extend(g.as_bytes());
+            chunk.extend(b"my");
+            let r = guard(|| {
+                let sh = Rc::new(RefCell::new(Shared::default()));
+                let mut stream = WinconStream::new(Console(sh.clone()));
+                stream.write_all(&chunk).map_err(|e| format!("write_all failed on a console that accepts everything: {e}"))?;
+                let mut model = RunModel::default();
+                let exp = expected_cells(&mut model, &chunk);
+                let got = sh.borrow().cells.clone();
+                if got != exp {
+                    return Err(format!("console colours differ: write_all({}) -> console got {:?}, expected {:?}", show(&chunk), summarize(&got), summarize(&exp)));
+                }
+                Ok(())
+            })
+            .and_then(|r| r);
+            if let Err(m) = r {
+                let mut b = bad.lock().unwrap();
+                if b.len() < 60 {
+                    b.push(Finding {
+                        system: "anstream::WinconStream/value-sweep".into(),
+                        clause: clause_of(&m),
+                        case: vec![show(&chunk)],
+                        message: m,
+                        replay: json!({"kind":"sweep","chunk":hex(&chunk)}),
+                    });
+                }
+            }
+        });
+        let mut b = bad.into_inner().unwrap();
+        b.sort_by_key(|f| (f.case[0].len(), f.key()));
+        out.findings.extend(b);
+        out.push_part(json!({"system":"console value sweeps (all 256 indices / component values / plain codes)","sequences":sweep.len()}));
+    }
+
     // E2
     let maxlen = if quick { 4 } else { 5 };
     let k = if quick { 2 } else { 3 };
@@ -501,6 +542,19 @@ fn replay(v: &serde_json::Value) -> Result<(), String> {
             };
             let forced: Vec<usize> = v["script"].as_array().unwrap().iter().map(|x| x.as_u64().unwrap() as usize).collect();
             run_fault_case(&toks, op, Script::new(forced)).0
+        }
+        "sweep" => {
+            let chunk = unhex(v["chunk"].as_str().unwrap_or(""));
+            let sh = Rc::new(RefCell::new(Shared::default()));
+            let mut stream = WinconStream::new(Console(sh.clone()));
+            stream.write_all(&chunk).map_err(|e| e.to_string())?;
+            let mut model = RunModel::default();
+            let exp = expected_cells(&mut model, &chunk);
+            let got = sh.borrow().cells.clone();
+            if got != exp {
+                return Err(format!("console got {:?}, expected {:?}", summarize(&got), summarize(&exp)));
+            }
+            Ok(())
         }
         k => Err(format!("unknown replay kind {k}")),
     }
